@@ -187,6 +187,8 @@ async fn run(input: RunInput, mode: Mode) -> RunOutput {
     let mut r_hangup = w.rng("wl:hangup");
     // explicit disconnects on a clean network: (time, who disconnected, whom)
     let mut clean_disconnects: Vec<(u64, usize, usize)> = Vec::new();
+    // instants at which a node was cut off from everybody (silent death, crash before a restart)
+    let mut isolations: Vec<(u64, usize)> = Vec::new();
     for _ in 0..n_ops {
         sleep_ms(r.gen_range(0..800)).await;
         if cpu_bound && r_cpu.gen_bool(0.35) {
@@ -312,6 +314,7 @@ async fn run(input: RunInput, mode: Mode) -> RunOutput {
             // crash without restart). The network was fault-free until now, so RTT estimates are
             // small and the plain idle-timeout bound applies to everybody who listed it.
             w.fabric.isolate(addrs[i]);
+            isolations.push((w.now_ns(), i));
             silent_death = Some((w.now_ns(), i));
             crashed = true;
             interesting = true;
@@ -325,6 +328,7 @@ async fn run(input: RunInput, mode: Mode) -> RunOutput {
             if crash {
                 crashed = true;
                 w.fabric.isolate(addrs[i]);
+                isolations.push((w.now_ns(), i));
             }
             let t0 = w.now_ns();
             let sd = tokio::time::timeout(Duration::from_secs(30), slots[i].node.net.shutdown()).await;
@@ -555,6 +559,11 @@ async fn run(input: RunInput, mode: Mode) -> RunOutput {
                 // racing the disconnect): which of the two got closed is not decidable from outside
                 let racing = |log: &Vec<(u64, PeerEvent)>, other: PeerId| log.iter().any(|(tx, ex)| matches!(ex, PeerEvent::NewPeer(q) if *q == other) && *tx + slack >= *t && *tx <= limit);
                 if racing(&logs[*b], ids[*a]) || racing(&logs[*a], ids[*b]) {
+                    continue;
+                }
+                // one of the two was cut off before the close could travel (the very next operation,
+                // possibly in the same millisecond)
+                if isolations.iter().any(|(ti, k)| (*k == *a || *k == *b) && *ti >= *t && *ti <= limit) {
                     continue;
                 }
                 w.probe("clean-disconnect-propagation-checked");
